@@ -114,6 +114,12 @@ def correspond(ctx):
                 s[pos] = rng.choice(foreign)
                 dec(bytes(s), tag="dec-malformed")
                 rep(bytes(s))
+        # … and EVERY byte value outside the alphabet, first / middle / last (a fast path that aliases one foreign character to a digit)
+        for c in foreign:
+            for n, pos in ((4, 0), (4, 2), (4, 3), (3, 2), (2, 0), (7, 5)):
+                s = bytearray(rng.choice(cm) for _ in range(n))
+                s[pos] = c
+                dec(bytes(s), tag="dec-every-foreign-byte")
         # integers
         for v in range(64):
             s_int.add(f"b64 encint {name} 6 {v}", lambda v=v: hx(e.encode_int6(v)))
@@ -305,6 +311,22 @@ def search(ctx, broken, seeds):
             if bad:
                 return {"input": {"op": "roundtrip", "engine": name, "bytes": bs.hex()}, "observed": bad,
                         "expected": "alphabet-only output of length ceil(4n/3), equal to RFC 4648 packing, decoding back to the input"}
+    # a character outside the engine's alphabet is refused wherever it stands (every byte value, every engine, both bit orders)
+    for name, e in eng.items():
+        cm = bytes(e.bytemap)
+        for c in range(256):
+            if c in cm:
+                continue
+            for n, pos in ((4, 0), (4, 1), (4, 2), (4, 3), (3, 2), (2, 1), (8, 6), (11, 10)):
+                s = bytearray(ctx.rng.choice(cm) for _ in range(n))
+                s[pos] = c
+                try:
+                    out = e.decode_bytes(bytes(s))
+                    return {"input": {"op": "decode-foreign", "engine": name, "text": bytes(s).hex(), "foreign_byte": c, "position": pos}, "observed": "decoded to " + out.hex(), "expected": "ValueError"}
+                except ValueError:
+                    pass
+                except Exception as err:  # noqa: BLE001
+                    return {"input": {"op": "decode-foreign", "engine": name, "text": bytes(s).hex(), "foreign_byte": c, "position": pos}, "observed": type(err).__name__ + ": " + str(err)[:80], "expected": "ValueError"}
     # integers, padding repair, helpers
     import passlib.utils.binary as pb
 
